@@ -1,6 +1,8 @@
 (* C18 — Analysis compares only complete, equal-length runs and averages correctly.  Property theorems only. *)
 From Coq Require Import ZArith List Bool Arith.
-From Coba Require Import C18.Model C18.Proofs.
+From Coba Require Import C18.Model C18.Proofs C18.ProofsAvg.
+From Coq Require Import QArith.
+Close Scope Q_scope.
 Import ListNotations.
 Open Scope nat_scope.
 
@@ -14,6 +16,28 @@ Print Assumptions moving_average_window.
 Theorem moving_average_prefix : forall xs i, i < length xs -> nth i (prefix_sums xs) 0%Z = zsum (firstn (S i) xs).
 Proof. exact prefix_sums_spec. Qed.
 Print Assumptions moving_average_prefix.
+
+(* moving_average as the code computes it (numerators and denominators, divided pairwise) against the textbook definition, for EVERY span - None, 1 (the
+   shortcut that returns the values), below, at and above the length - with or without an explicit weight sequence: entry i is
+   (sum of w*v over the window) / (sum of w over the window), stated cross-multiplied so that no division is involved *)
+Theorem moving_average_is_textbook : forall vs span w i, i < length vs -> (forall ws, w = WList ws -> length ws = length vs) ->
+  let xs := match w with WNone => vs | WList ws => wv vs ws end in
+  let ws' := match w with WNone => repeat 1%Z (length vs) | WList ws => ws end in
+  let nd := moving_average_nd vs span w in
+  (nth i (fst nd) 0 * wsum_window span i ws' = wsum_window span i xs * nth i (snd nd) 0)%Z.
+Proof. exact moving_average_textbook_eq. Qed.
+Print Assumptions moving_average_is_textbook.
+
+(* weights='exp': entry i is sum_{j<=i} r^(i-j) v_j / sum_{j<=i} r^(i-j) with r = 1 - 2/(1+span) (exact rationals) *)
+Theorem exponential_moving_average_closed_form : forall vs span i, i < length vs ->
+  (nth i (moving_average_exp vs span) 0 == geo (1 - 2 / (1 + span)) (firstn (S i) vs) / geo (1 - 2 / (1 + span)) (repeat 1 (S i)))%Q.
+Proof. exact ema_textbook. Qed.
+Print Assumptions exponential_moving_average_closed_form.
+
+Example moving_average_weighted_example :
+  moving_average_nd [4; 6; 8]%Z (Some 1) (WList [2; 3; 5]%Z) = ([4; 6; 8], [1; 1; 1])%Z /\
+  moving_average_nd [4; 6; 8]%Z (Some 2) (WList [2; 3; 5]%Z) = ([8; 26; 58], [2; 5; 8])%Z.
+Proof. vm_compute. split; reflexivity. Qed.
 
 (* where_fin(l,p): exactly the pairing groups with one evaluation for every level survive *)
 Theorem fin_keeps_exactly_complete_groups : forall evs e, In e evs ->
